@@ -37,7 +37,7 @@ type Node struct {
 	Sym   any
 	Synth bool
 	// compound only
-	Nested   bool  // decoded from its own buffer with FieldFormatBitBuf (a nested root)
+	Nested   bool   // decoded from its own buffer with FieldFormatBitBuf (a nested root)
 	TrailGap []byte // root only: bytes after the last field that no field reads (-> gap0)
 	isRoot   bool
 	bufBits  int64 // roots and nested roots: size of their buffer
